@@ -186,7 +186,7 @@ def main(tier, seed):
     log(f"{len(cells)} cells: {len(normal)} packed into {len(progs)} modules, {len(leads)} leads, {len(tests)} test cells; configs {cfgs}")
 
     # 3. regular builds, checked against the Python prediction
-    with ThreadPoolExecutor(max_workers=4) as ex:
+    with ThreadPoolExecutor(max_workers=nc.parallelism()) as ex:
         refs = dict(zip([p.tag for p in progs], ex.map(mx.regular, progs)))
     for p in progs:
         ref = refs[p.tag]
@@ -254,27 +254,31 @@ def main(tier, seed):
         p = nc.generate([c], f"s{seed}l{i}", rng, extras=False)
         ref = mx.regular(p)
         if not ref.ok:
-            return c, p, ref, None, "not-go"
-        toobf = "TT" if not c["verdict"]["TT"]["consistent"] else next(k for k in ("TF", "FT") if not c["verdict"][k]["consistent"])
-        b = mx.garble(p, lead_cfgs[toobf])
-        return c, p, ref, b, None
-    with ThreadPoolExecutor(max_workers=4) as ex:
+            return c, p, ref, [], "not-go"
+        # under the first scope where the spec says the names disagree (the real garble decides), and under
+        # the full scope when the spec says they agree there (must behave like any other cell)
+        bad_scope = next(k for k in ("TT", "TF", "FT") if not c["verdict"][k]["consistent"])
+        scopes = [bad_scope] + (["TT"] if c["verdict"]["TT"]["consistent"] else [])
+        return c, p, ref, [mx.garble(p, lead_cfgs[k]) for k in scopes if k in lead_cfgs], None
+    with ThreadPoolExecutor(max_workers=nc.parallelism()) as ex:
         lead_results = list(ex.map(run_lead, enumerate(runnable)))
     leads_reproduced = 0
-    for c, p, ref, b, note in lead_results:
+    for c, p, ref, bs, note in lead_results:
         if note == "not-go":
             log(f"lead {nc.cell_label(c)}: the regular toolchain rejects the concretisation; not a Go program, skipped:\n{ref.res.stderr[-400:]}")
             chk.case(["lead", c["id"], "not-go"], nontrivial=False)
             continue
-        chk.case(["lead", c["id"], b.cfg.name])
-        diff = None if not b.ok else compare_runs(mx, ref, b, vectors[:2])
-        if not b.ok or diff:
-            leads_reproduced += 1
-            chk.violation(witness_of(c, b.cfg, "garble-build-fails" if not b.ok else "output-differs"),
-                          replay_files(b, ref, {"diff.json": json.dumps(diff, indent=1)} if diff else None),
-                          what=f"lead {c['lead']} reproduced on the real garble: {nc.cell_label(c)}")
-        else:
-            drift.append({"lead": c["lead"], "cell": nc.cell_label(c), "spec": "inconsistent names", "real": "builds and behaves like the regular build"})
+        for b in bs:
+            chk.case(["lead", c["id"], b.cfg.name])
+            expected_bad = not c["verdict"][b.cfg.toobf]["consistent"]
+            diff = None if not b.ok else compare_runs(mx, ref, b, vectors[:2])
+            if not b.ok or diff:
+                leads_reproduced += expected_bad
+                chk.violation(witness_of(c, b.cfg, "garble-build-fails" if not b.ok else "output-differs"),
+                              replay_files(b, ref, {"diff.json": json.dumps(diff, indent=1)} if diff else None),
+                              what=f"lead {c['lead']} {'reproduced' if expected_bad else 'fails where the spec says it is consistent'} on the real garble: {nc.cell_label(c)} under {b.cfg.name}")
+            elif expected_bad:
+                drift.append({"lead": c["lead"], "cell": nc.cell_label(c), "config": b.cfg.name, "spec": "inconsistent names", "real": "builds and behaves like the regular build"})
     chk.extra["leads_concretised"] = len(lead_results)
     chk.extra["leads_reproduced"] = leads_reproduced
 
